@@ -1,6 +1,6 @@
 HOOK_COMMITS = []  # filled by gen (git log of /repo commits whose subject starts with "verif hook")
 ENGINES = [
- {"name": "enum", "path": "h/enum", "serves_properties": ["C01"], "kind_free_text": "E1: small-scope exhaustive enumeration of inputs / operation sequences on the real functions against an independent reference model"},
+ {"name": "enum", "path": "h/enum", "serves_properties": ["C01", "C14"], "kind_free_text": "E1: small-scope exhaustive enumeration of inputs / operation sequences on the real functions against an independent reference model"},
 ]
 ALL = ["C%02d" % i for i in range(1, 21)]
 CLAIMS = [
@@ -8,6 +8,10 @@ CLAIMS = [
   "technique": "explicit-state small-scope enumeration: every ring descriptor of a bounded universe × boundary keys × ops × RF × zone-awareness on the real Ring.Get vs an independent linear-scan reference",
   "text": "Exhaustive within the stated bound: every descriptor (1..3 instances quick / 1..4 thorough, 0..2 tokens each from {0,1,7,2^32-2,2^32-1}, 3 zones incl. none, 5-6 health classes incl. the exact heartbeat-timeout boundary) × RF × zone-awareness × 4 ops × every boundary key × 3 buffer variants is looked up on the real ring client and compared with a reference that shares no code with it. Beyond unit tests: all boundary classes and all small rings, not a few random 128-token rings.",
   "note": "Bound: rings above 4 instances / 2 tokens per instance and RF above 5 are not explored; keys are one representative per gap/token (argued complete because code and spec see keys only via comparisons). Ring fed through the verif hook VerifUpdateRingState (same code path as the KV watch callback)."},
+ {"id": "C14", "engine": "enum", "design_ref": "DESIGN.md §4 C14",
+  "technique": "explicit-state small-scope enumeration: every token→owner assignment over the boundary token alphabet {0,1,2,2^32-3..2^32-1}; reported ranges vs the real lookup for every boundary key",
+  "text": "Exhaustive within the bound: all assignments of the 6 alphabet tokens to up to 3-4 instances in 8 zone layouts (RF = #zones = 1..3) and to 1..3 partitions (<=3 tokens per owner, token-less owners included); for every owner and each of 15 boundary keys IncludesKey(ranges) must equal membership in the real Get / ActivePartitionForKey answer; ranges must be sorted, paired, disjoint and tile each zone / the partition ring.",
+  "note": "Bound: token alphabet of 6 values, <=3 tokens per owner; all instances ACTIVE and healthy, all partitions active (as the property states); random large rings not run (different technique)."},
 ]
 NOT_APPLICABLE = [{"property_id": p, "reason": "check not built yet in this session (planned, see DESIGN.md §4); not a limit of the technique"} for p in ALL if p not in [c["id"] for c in CLAIMS]]
 import subprocess
